@@ -5,7 +5,7 @@ use crate::ctx::{Ctx, Tier};
 use core::mem::{align_of, offset_of, size_of as msize};
 use std::collections::HashMap;
 
-include!(concat!(env!("OUT_DIR"), "/abi_table.rs"));
+use crate::abi_table::{ABI_CONSTS, ABI_CONSTS_SCANNED};
 
 pub const DEF: PropDef = PropDef { id: "C19", strata, run, setup, canaries: &["panic"] };
 
